@@ -102,6 +102,8 @@ func genReAtom(r *rng, d int) string {
 		}
 
 		return string(c)
+	case k < 15 && r.chance(1, 3):
+		return quirkLead(r, pick(r, quirkLetters))
 	case k < 16:
 		return pick(r, []string{`\.`, `\/`, `\-`, `\?`, `\|`, `\*`, `\+`, `\(`, `\)`, `\[`, `\]`, `\{`, `\}`, `\^`, `\$`, `\\`, `\_`, `\%`, `\ `, `\:`})
 	case k < 18:
@@ -185,6 +187,10 @@ func genReAlt(r *rng, d int) string {
 // damaged to exercise the error paths of the parser.
 func genRegexText(r *rng) string {
 	p := genReAlt(r, 2+r.n(2))
+	if r.chance(1, 6) {
+		// group P3: case-sensitive literal next to its case-folded twin at the head of alternation branches
+		p = genQuirkText(r)
+	}
 	if r.chance(1, 10) && len(p) > 0 {
 		i := r.n(len(p) + 1)
 		switch r.n(4) {
@@ -395,7 +401,12 @@ func genRe(r *rng, n int, w *bufio.Writer) {
 
 			continue
 		}
-		for _, s := range reSubjects(r, tree, 4+r.n(4), 6) {
+		subs := reSubjects(r, tree, 4+r.n(4), 6)
+		if quirkTwoCase(p) && !strings.HasPrefix(p, "(?i)") {
+			// group P3: subjects that tell Go's reading of the expression from the textbook one
+			subs = append(subs, quirkSubjects(r, p, 2)...)
+		}
+		for _, s := range subs {
 			if i >= n {
 				break
 			}
